@@ -7,6 +7,7 @@ CONSTANTS Producers = {"p1", "p2", "p3"}
           Locks = TRUE
           RealTime = FALSE
           Disconnect = TRUE
+          FatalEvery = 0
           NMsgs = 1
           ScriptSet = {"quit", "reset", "dtor", "cycle"}
           Script2Set = {"none", "reset"}
